@@ -147,6 +147,15 @@ fn drain_errors() -> Option<String> {
 }
 
 fn prop(ops: &Vec<Op>, obs: &mut Obs) -> CaseResult {
+    // a memory error inside the code under test kills the process: the crash guard then
+    // reports this history
+    vcommon::abort::set_current_tl(&serde_json::to_string(ops).unwrap_or_default());
+    let r = prop_inner(ops, obs);
+    vcommon::abort::clear_tl();
+    r
+}
+
+fn prop_inner(ops: &Vec<Op>, obs: &mut Obs) -> CaseResult {
     LIVE.with(|l| l.borrow_mut().clear());
     ERRORS.with(|e| e.borrow_mut().clear());
     let mut blocks: Vec<Block> = Vec::with_capacity(64);
@@ -275,6 +284,7 @@ fn main() {
         non-trivial = history reallocs a block with align > 16 or of size 0, or makes a zero-size request; distinct by hash of the history".into();
     check.assumptions.push("cabi_realloc is compiled natively through --cfg bytecodealliance_wit_bindgen_verif (pointer width 8); the system allocator stands in for the wasm allocator".into());
     let n = check.tier.pick(20_000, 1_000_000);
+    vcommon::abort::install(&check.id, "history", check.sub_seed("history", 0));
     check.prop("history", || proptest::collection::vec(op(), 0..40), n, prop);
     check.finish()
 }
